@@ -37,6 +37,13 @@ func clone(o object.Object) object.Object {
 	return c
 }
 
+func uuid4(x byte) []byte {
+	b := bytes.Repeat([]byte{x}, 16)
+	b[6] = 0x40 | x&0x0f
+	b[8] = 0x80 | x&0x3f
+	return b
+}
+
 func pay(n int, salt byte) []byte {
 	b := make([]byte, n)
 	for i := range b {
@@ -74,7 +81,7 @@ func resign(o *object.Object, s user.Signer) {
 
 func sessionToken(authKey neofscrypto.PublicKey, issuer user.Signer) session.Object {
 	var t session.Object
-	t.SetID(uuid.UUID{1, 2, 3, 4, 5, 6, 7, 8, 9, 10, 11, 12, 13, 14, 15, 16})
+	t.SetID(uuid.UUID{1, 2, 3, 4, 5, 6, 0x47, 8, 0x89, 10, 11, 12, 13, 14, 15, 16}) // fixed, version 4
 	t.SetIat(currentEpoch - 5)
 	t.SetNbf(currentEpoch - 5)
 	t.SetExp(currentEpoch + 50)
@@ -128,7 +135,7 @@ func buildBases() []*base {
 
 	par = fullParent(cidREP, whole)
 	o = hdr(cidREP)
-	o.SetSplitID(object.NewSplitIDFromV2(bytes.Repeat([]byte{7}, 16)))
+	o.SetSplitID(object.NewSplitIDFromV2(uuid4(7)))
 	o.SetPreviousID(idFrom("prev"))
 	o.SetParent(&par)
 	o.SetChildren(idFrom("prev"), idFrom("self"))
@@ -427,7 +434,7 @@ func buildMutations() []mutation {
 	legit("parent-nesting-3", "format", named("v2-last-child", "v1-last-child"), func(o *object.Object, b *base) {
 		mk := func(inner *object.Object, whole []byte) object.Object {
 			p := hdr(cidREP)
-			p.SetSplitID(object.NewSplitIDFromV2(bytes.Repeat([]byte{9}, 16)))
+			p.SetSplitID(object.NewSplitIDFromV2(uuid4(9)))
 			if inner != nil {
 				p.SetParent(inner)
 			}
